@@ -403,17 +403,30 @@ def agNext (s : State) (name mode : String) : State :=
       if parked then addPending (setAgent s { a with parked := a.parked + 1 }) name "next"
       else reply (setAgent s a) name "next" (renderAgent s)
 
-/-- a parked agent handler wakes up -/
-def wakeAgent (s : State) : Option State :=
-  match s.agents.find? (fun a => a.parked > 0 && a.flag) with
+/-- which of several runnable handlers the Go scheduler runs: the first or the last in agent order -/
+def pickAgent (lifo : Bool) (p : Agent → Bool) (l : List Agent) : Option Agent :=
+  if lifo then l.reverse.find? p else l.find? p
+
+/-- a parked agent handler wakes up: it leaves `SuspendUnsafe` (consuming the condition value) and, still
+    under the thread's lock, moves Ready → Running (`ExternalAgentRunningState.Ready`); the event is read
+    later, without the lock (`renderWoken`) -/
+def wakeAgent (lifo : Bool) (s : State) : Option State :=
+  match pickAgent lifo (fun a => a.parked > 0 && a.flag) s.agents with
   | none => none
   | some a =>
     let a := { a with parked := a.parked - 1, flag := false }
     -- the harness-side name under which the call was made is the agent's name
-    if a.st == .ready then
-      let s := setAgent s { a with st := .running }
-      some (answer s a.name "next" (renderAgent s))
+    if a.st == .ready then some (setAgent s { a with st := .running, woken := a.woken + 1 })
     else some (answer (setAgent s a) a.name "next" "403,Extension.InvalidExtensionState")
+
+/-- a handler that has woken up reads the current event (`RenderAgentEvent`) and answers: whatever the
+    renderer is by now — a release and the reading of the event are not one atomic step -/
+def renderWoken (lifo : Bool) (s : State) : Option State :=
+  match pickAgent lifo (fun a => a.woken > 0) s.agents with
+  | none => none
+  | some a =>
+    let s := setAgent s { a with woken := a.woken - 1 }
+    some (answer s a.name "next" (renderAgent s))
 
 /-- POST /extension/init/error and /extension/exit/error -/
 def agReport (s : State) (name call etype mode : String) : State :=
